@@ -125,7 +125,7 @@ def refute_grounded(mod, failed_ids, seed):
             oid = obligation_id(mod.PROP, ob)
             if oid not in todo or oid in found:
                 continue
-            r = ground.check(ob, timeout_ms=20000)
+            r = ground.check(ob, timeout_ms=8000)
             if r[0] == "sat":
                 found[oid] = (scope, r[1])
     return found
@@ -223,14 +223,14 @@ def main(mod, tier, seed, replay=None):
         undecided_msgs.append("zero obligations generated")
     failed = [r for r in results if r["verdict"] != "proved"]
     grounded = {}
-    if failed:
-        grounded = refute_grounded(mod, [r["id"] for r in failed], seed)
+    battery = run_battery(mod, tier, seed)
+    if failed and not (battery and battery.get("failures")):
+        grounded = refute_grounded(mod, [r["id"] for r in failed if r["verdict"] == "unknown"], seed)
         for r in failed:
             if r["id"] in grounded:
                 r["verdict"] = "refuted"
                 r["backend"] = f"z3 grounded scope {grounded[r['id']][0]}"
                 r["model"] = grounded[r["id"]][1]
-    battery = run_battery(mod, tier, seed)
     bat_fail = battery["failures"] if battery else []
     if battery and battery.get("error"):
         undecided_msgs.append("battery: " + battery["error"])
